@@ -38,6 +38,103 @@ TXT_RECORDS = {
     "DMAP": {"ctlN": "Apple TV", "hG": "00000000-1111-2222-3333-444444444444", "txtvers": "1"},
 }
 
+# Devices as a real zeroconf scan sees them: (service type, instance name, TXT record) per service, the
+# model announced by _device-info._tcp, whether AirPlay advertises video (PlayUrl gate), which
+# services get credentials from pairing.  TXT values follow what these devices announce (pyatv
+# documentation "protocols", tests/fake_udns.py, tests/protocols/*).
+DEVICE_PROFILES = {
+    "appletv4k": {
+        "model": "J305AP", "video": True, "airplay_hap": True,
+        "services": [
+            ("_mediaremotetv._tcp.local", "Living Room", {
+                "Name": "Living Room", "UniqueIdentifier": "4D797FD3-3538-427E-A47B-A32FC6CF3A69", "ModelName": "Apple TV",
+                "SystemBuildVersion": "18L204", "AllowPairing": "YES", "macAddress": "aa:bb:cc:dd:ee:ff"}),
+            ("_airplay._tcp.local", "Living Room", {
+                "deviceid": "AA:BB:CC:DD:EE:FF", "features": "0x4A7FDFD5,0xBC157FDE", "flags": "0x18644", "model": "AppleTV6,2",
+                "osvers": "14.7", "srcvers": "540.31.41", "psi": "4D797FD3-3538-427E-A47B-A32FC6CF3A69", "acl": "0"}),
+            ("_raop._tcp.local", "AABBCCDDEEFF@Living Room", {
+                "am": "AppleTV6,2", "cn": "0,1,2,3", "et": "0,3,5", "md": "0,1,2", "ft": "0x4A7FDFD5,0xBC157FDE",
+                "tp": "UDP", "vs": "540.31.41", "ov": "14.7", "sf": "0x18644"}),
+            ("_companion-link._tcp.local", "Living Room", {
+                "rpmd": "AppleTV6,2", "rpfl": "0x36782", "rpha": "9948cfb6da55", "rpvr": "250.3", "rpmac": "2"}),
+        ]},
+    "appletv3": {
+        "model": "J33AP", "video": True, "airplay_hap": False,
+        "services": [
+            ("_appletv-v2._tcp.local", "AAAA5555BBBB0000", {"Name": "Bedroom", "hG": "00000000-1111-2222-3333-444444444444", "MiTPV": "196611"}),
+            ("_touch-able._tcp.local", "AAAA5555BBBB0000", {"CtlN": "Bedroom", "DvTy": "AppleTV", "Ver": "131077"}),
+            ("_airplay._tcp.local", "Bedroom", {
+                "deviceid": "11:22:33:44:55:66", "features": "0x5A7FFFF7,0xE", "flags": "0x44", "model": "AppleTV3,2",
+                "srcvers": "220.68", "vv": "2"}),
+            ("_raop._tcp.local", "112233445566@Bedroom", {
+                "am": "AppleTV3,2", "cn": "0,1,2,3", "et": "0,3,5", "md": "0,1,2", "ft": "0x5A7FFFF7,0xE", "tp": "UDP", "vs": "220.68"}),
+        ]},
+    "homepod": {
+        "model": "B520AP", "video": False, "airplay_hap": False,
+        "services": [
+            ("_airplay._tcp.local", "Kitchen", {
+                "deviceid": "22:33:44:55:66:77", "features": "0x4A7FCA00,0x3C356BD0", "flags": "0x18404", "model": "AudioAccessory5,1",
+                "osvers": "15.4", "srcvers": "610.16.47", "psi": "5D797FD3-3538-427E-A47B-A32FC6CF3A69", "gid": "5D797FD3-3538-427E-A47B-A32FC6CF3A69"}),
+            ("_raop._tcp.local", "223344556677@Kitchen", {
+                "am": "AudioAccessory5,1", "cn": "0,1,2,3", "et": "0,3,5", "md": "0,1,2", "ft": "0x4A7FCA00,0x3C356BD0",
+                "tp": "UDP", "vs": "610.16.47", "sf": "0x18404"}),
+            ("_companion-link._tcp.local", "Kitchen", {"rpmd": "AudioAccessory5,1", "rpfl": "0x62792", "rpha": "45efecc5211", "rpvr": "360.4"}),
+        ]},
+    "music": {
+        "model": "MacBookPro16,1", "video": False, "airplay_hap": False,
+        "services": [
+            ("_hscp._tcp.local", "Music", {"Machine Name": "MacBook", "Machine ID": "AABBCCDDEE00", "hG": "00000000-1111-2222-3333-444444444444",
+                                          "Version": "196618", "txtvers": "1", "DvTy": "iTunes"}),
+            ("_airplay._tcp.local", "MacBook", {
+                "deviceid": "33:44:55:66:77:88", "features": "0x4A7FCA00,0x3C356BD0", "flags": "0x4", "model": "MacBookPro16,1", "srcvers": "610.16.47"}),
+            ("_raop._tcp.local", "334455667788@MacBook", {"am": "MacBookPro16,1", "cn": "0,1,2,3", "et": "0,3,5", "md": "0,1,2", "tp": "UDP", "vs": "610.16.47"}),
+        ]},
+    "airport": {
+        "model": None, "video": False, "airplay_hap": False,
+        "services": [
+            ("_raop._tcp.local", "445566778899@Hall", {
+                "am": "AirPort10,115", "cn": "0,1", "et": "0,4", "md": "0,1,2", "tp": "TCP,UDP", "vs": "105.1", "ss": "16", "sr": "44100",
+                "sv": "false", "ek": "1", "ch": "2", "txtvers": "1", "fv": "78100.3", "da": "true", "sf": "0x5"}),
+            ("_airplay._tcp.local", "Hall", {"deviceid": "44:55:66:77:88:99", "features": "0x445D0A00", "flags": "0x4", "model": "AirPort10,115", "srcvers": "366.0"}),
+        ]},
+}
+
+
+async def profile_config(profile):
+    """The configuration pyatv's own scanner builds for the device (handlers, device_info
+    extractors and service_info of every protocol, `conf.properties` per service type)."""
+    from ipaddress import IPv4Address
+
+    from pyatv.core import mdns
+    from pyatv.core.scan import BaseScanner
+    from pyatv.protocols import PROTOCOLS
+
+    dev = DEVICE_PROFILES[profile]
+    address = IPv4Address("127.0.0.1")
+
+    class OneResponse(BaseScanner):
+        async def process(self, timeout):
+            self.handle_response(mdns.Response(
+                [mdns.Service(stype, name, address, 1234, dict(txt)) for stype, name, txt in dev["services"]], False, dev["model"]))
+
+    scanner = OneResponse()
+    for proto, methods in PROTOCOLS.items():
+        scanner.add_service_info(proto, methods.service_info)
+        for service_type, handler in methods.scan().items():
+            scanner.add_service(service_type, handler, methods.device_info)
+    configs = await scanner.discover(0)
+    return configs[address]
+
+
+def profile_protocols(profile):
+    """protocol names a scan of the device yields a service for (order of the property text)"""
+    types = {
+        "_mediaremotetv._tcp.local": "MRP", "_appletv-v2._tcp.local": "DMAP", "_touch-able._tcp.local": "DMAP",
+        "_hscp._tcp.local": "DMAP", "_companion-link._tcp.local": "Companion", "_airplay._tcp.local": "AirPlay", "_raop._tcp.local": "RAOP"}
+    have = {types[stype] for stype, _n, _t in DEVICE_PROFILES[profile]["services"]}
+    return [p for p in TEXT_ORDER if p in have]
+
+
 HAP_CREDENTIALS = ":".join(["aa" * 32, "bb" * 32, "cc" * 8, "dd" * 8])
 
 
@@ -53,9 +150,12 @@ def default_spec(**kw):
                        when the configuration has no RAOP service
     txt                the services carry the TXT records real devices announce (TXT_RECORDS) instead
                        of empty ones: what set-up derives from them (metadata types, models …) is in play
+    profile            a device of DEVICE_PROFILES as pyatv's own scanner sees it (configuration built by the
+                       real scan handlers); `services` then lists the protocols left enabled, `video`,
+                       `tunnel`, `unified` and `txt` are given by the device's TXT records
     """
     spec = {"services": list(TEXT_ORDER), "companion_creds": True, "video": True, "tunnel": False, "unified": False,
-            "txt": False}
+            "txt": False, "profile": None}
     spec.update(kw)
     return spec
 
@@ -102,7 +202,16 @@ async def _build(spec, fail=()):
     from pyatv.core import MutableService
 
     config = conf.AppleTV(IPv4Address("127.0.0.1"), "verif")
-    for name in spec["services"]:
+    if spec.get("profile"):
+        dev = DEVICE_PROFILES[spec["profile"]]
+        config = await profile_config(spec["profile"])
+        for service in config.services:
+            service.enabled = service.protocol.name in spec["services"]
+            if service.protocol == Protocol.Companion:
+                service.credentials = HAP_CREDENTIALS if spec["companion_creds"] else None
+            if service.protocol == Protocol.AirPlay and dev["airplay_hap"]:
+                service.credentials = HAP_CREDENTIALS
+    for name in ([] if spec.get("profile") else spec["services"]):
         p = Protocol[name]
         props, cred = {}, None
         if p == Protocol.AirPlay:
@@ -197,6 +306,13 @@ PATH_SPECS = [
     ("native+txt-records", default_spec(txt=True)),
     ("tunnel+unified+txt-records", default_spec(services=["AirPlay", "Companion"], tunnel=True, unified=True, txt=True)),
 ] + [("only-" + n, default_spec(services=[n])) for n in TEXT_ORDER]
+PATH_SPECS += [("device-" + name, None) for name in DEVICE_PROFILES]          # filled in below
+PATH_SPECS = [(path, spec if spec is not None else default_spec(profile=path[7:], services=profile_protocols(path[7:]),
+                                                                 video=DEVICE_PROFILES[path[7:]]["video"]))
+              for path, spec in PATH_SPECS]
+# the same devices once more after all the others were set up, in reverse order: what a
+# protocol hands over must not depend on which devices were set up before in the process
+PATH_SPECS += [(path + "@again", spec) for path, spec in reversed(PATH_SPECS) if path.startswith("device-")]
 
 
 def public_members(base):
@@ -235,6 +351,35 @@ def tables():
     from pyatv.protocols.companion import MEDIA_CONTROL_MAP, SUPPORTED_FEATURES
     from pyatv.protocols import dmap as dmap_mod
     from pyatv.protocols import mrp as mrp_mod
+
+    def path_entries(path, spec):
+        """the three per-protocol tables of every SetupData the configuration yields"""
+        world = build_world(spec=spec)
+        ifaces_ = list(world.atv._interfaces.keys())
+        out = []
+        for origin, sd in world.queue:
+            impls = []
+            for base in ifaces_:
+                if base is interface.Features:
+                    continue
+                inst = sd.interfaces.get(base)
+                for name in public_members(base):
+                    d = defining_class(type(inst), name) if inst is not None else None
+                    if d is not None and d is not base:
+                        impls.append(f"{iface_ident(base)}_{name}")
+            out.append({
+                "path": path, "origin": origin.name, "proto": sd.protocol.name,
+                "provides": [iface_ident(b) for b in ifaces_ if b in sd.interfaces],
+                "implements": impls,
+                "features": sorted((f.name for f in sd.features), key=lambda n: FeatureName[n].value),
+            })
+        return out
+
+    # the real devices FIRST, before anything else was set up in this process (and again, in
+    # other orders, among PATH_SPECS): what a protocol hands over must not depend on set-up order
+    paths = []
+    for path, spec in reversed([ps for ps in PATH_SPECS if ps[0].startswith("device-") and "@" not in ps[0]]):
+        paths += path_entries(path + "@first", spec)
 
     built = build_world()
     atv, setups, order = built.atv, native_setups(built), built.order
@@ -317,24 +462,10 @@ def tables():
     def names(xs):
         return sorted((f.name for f in xs), key=lambda n: FeatureName[n].value)
 
-    # every other way instances get registered: the same three per-protocol tables for each
-    # SetupData the configurations in PATH_SPECS yield (tunnelled MRP, RAOP via AirPlay, ...)
-    paths = []
+    # every other way instances get registered (tunnelled MRP, RAOP via AirPlay, TXT records, the
+    # scanned devices in two more orders)
     for path, spec in PATH_SPECS:
-        for origin, sd in build_world(spec=spec).queue:
-            impls = []
-            for base in routed:
-                inst = sd.interfaces.get(base)
-                for name in public_members(base):
-                    d = defining_class(type(inst), name) if inst is not None else None
-                    if d is not None and d is not base:
-                        impls.append(f"{iface_ident(base)}_{name}")
-            paths.append({
-                "path": path, "origin": origin.name, "proto": sd.protocol.name,
-                "provides": [iface_ident(b) for b in ifaces if b in sd.interfaces],
-                "implements": impls,
-                "features": names(sd.features),
-            })
+        paths += path_entries(path, spec)
     t["paths"] = paths
 
     t["shape"] = {
